@@ -419,6 +419,9 @@ func Explore(p *Profile, r Runner, deadline func() bool, st *Stats, onViol func(
 					onViol(v)
 				}
 				if lf.NoExpand {
+					if len(lf.Viol) == 0 && p.Run != nil {
+						st.States[cfg.String()+"/leaf/"+lf.ObsHash] = true // terminal states of custom leaves
+					}
 					continue
 				}
 				if lf.Kappa != "" {
